@@ -474,6 +474,7 @@ func (w *World) callOrder(id string, opts *RunOpts, ex *Extra) {
 	w.stateInventory(id, opts, ex)
 	w.decoderPairs(id, opts, ex)
 	w.equalityBy(id, opts, ex)
+	w.failsOnlyBy(id, opts, ex)
 	for _, c := range w.specs.Contracts {
 		if !hasTag(c.Props, id) {
 			continue
@@ -1295,4 +1296,124 @@ func (w *World) equalityBy(id string, opts *RunOpts, ex *Extra) {
 			}
 		}
 	}
+}
+
+// failsOnlyBy: `fails-only-by <callee> <callee>...` — every non-nil error the
+// function returns is the error of a call of one of the listed callees, as it is
+// or wrapped by fmt.Errorf / errors.Join: the function rejects nothing on its own
+// account. (UnmarshalYAML of a run-time type must reject exactly what its decoding
+// steps reject; a further test of its own makes it disagree with UnmarshalJSON.)
+func (w *World) failsOnlyBy(id string, opts *RunOpts, ex *Extra) {
+	for _, c := range w.specs.Contracts {
+		if !hasTag(c.Props, id) {
+			continue
+		}
+		for _, cl := range c.Clauses {
+			if cl.Kind != "fails-only-by" {
+				continue
+			}
+			callees := strings.Fields(cl.Raw)
+			name := fmt.Sprintf("%s/fails-only-by:%s", c.Func, strings.Join(callees, ","))
+			fn := w.findFunc(c)
+			ex.Count++
+			if fn == nil {
+				ex.Lines = append(ex.Lines, "UNDECIDED: "+c.Func+" not found; "+name+" is not checked")
+				ex.Discharged++
+				continue
+			}
+			listed := func(call *ssa.Call) bool {
+				n := calleeName(call)
+				if n == "" { // a call of a function value: named by the parameter or variable
+					n = call.Call.Value.Name()
+				}
+				for _, want := range callees {
+					if calleeMatches(n, want) || call.Call.Value.Name() == want {
+						return true
+					}
+				}
+				return false
+			}
+			var fromListed func(v ssa.Value, depth int) bool
+			fromListed = func(v ssa.Value, depth int) bool {
+				if depth > 6 {
+					return false
+				}
+				switch x := v.(type) {
+				case *ssa.Const:
+					return x.Value == nil // nil error
+				case *ssa.Extract:
+					if call, ok := x.Tuple.(*ssa.Call); ok {
+						return listed(call)
+					}
+				case *ssa.Call:
+					if listed(x) {
+						return true
+					}
+					n := calleeName(x)
+					if n == "fmt.Errorf" || n == "errors.Join" {
+						// wrapped: some argument carries a listed callee's error
+						for _, a := range x.Call.Args {
+							if sl, ok := a.(*ssa.Slice); ok {
+								if al, ok := sl.X.(*ssa.Alloc); ok {
+									for _, r := range *al.Referrers() {
+										ia, ok := r.(*ssa.IndexAddr)
+										if !ok {
+											continue
+										}
+										for _, r2 := range *ia.Referrers() {
+											if st, ok := r2.(*ssa.Store); ok && fromListed(st.Val, depth+1) {
+												if mi, isMI := st.Val.(*ssa.MakeInterface); !isMI || !isNilConst(mi.X) {
+													return true
+												}
+											}
+										}
+									}
+								}
+							}
+						}
+					}
+				case *ssa.MakeInterface:
+					return fromListed(x.X, depth+1)
+				case *ssa.ChangeInterface:
+					return fromListed(x.X, depth+1)
+				case *ssa.Phi:
+					for _, e := range x.Edges {
+						if !fromListed(e, depth+1) {
+							return false
+						}
+					}
+					return true
+				}
+				return false
+			}
+			bad := ""
+			for _, b := range fn.Blocks {
+				ret, ok := b.Instrs[len(b.Instrs)-1].(*ssa.Return)
+				if !ok || len(ret.Results) == 0 {
+					continue
+				}
+				ev := ret.Results[len(ret.Results)-1]
+				if ev.Type().String() != "error" {
+					continue
+				}
+				if !fromListed(ev, 0) && bad == "" {
+					p := w.prog.Fset.Position(ret.Pos())
+					bad = fmt.Sprintf("the error returned at line %d (%s) is not the error of %s: the function rejects an input on its own account", p.Line, trunc(ev.String(), 80), strings.Join(callees, " / "))
+				}
+			}
+			if bad != "" {
+				path := writeTextReplay(opts, id, name, bad+"\n(abstract-mode data-flow obligation over go/ssa)", "", "", "bin/govc check "+id)
+				ex.Lines = append(ex.Lines, fmt.Sprintf("VIOLATION property=%s replay=%s no-failing-input-found", id, path))
+				ex.Lines = append(ex.Lines, "  failed obligation: "+name+": "+bad)
+				ex.Violations++
+			} else {
+				ex.Discharged++
+			}
+		}
+	}
+}
+
+func isNilConst(v ssa.Value) bool {
+	c, ok := v.(*ssa.Const)
+	return ok && c.Value == nil
 }
